@@ -190,7 +190,16 @@ func init() {
 							}
 						}
 					}
-					wholesale := len(w.callsMatching(f, `\.txsMap\.Range\(`)) > 0 && len(w.callsMatching(f, `^sync/atomic\.(SwapInt64|StoreInt64)\(.*\.txsBytes, 0\)$`)) > 0
+					// (a helper carved out of the function that empties the pool is judged with that function)
+					root := f
+					for i := 0; i < 4; i++ {
+						site := transparentSite(root)
+						if site == nil {
+							break
+						}
+						root = site.Parent()
+					}
+					wholesale := len(w.callsMatching(root, `\.txsMap\.Range\(`)) > 0 && len(w.callsMatching(root, `^sync/atomic\.(SwapInt64|StoreInt64)\(.*\.txsBytes, 0\)$`)) > 0
 					if wholesale {
 						c.OK(key+" (wholesale reset of list, index and counter)", w.ipos(site.Instr), "function clears the index with Range/Delete and resets the byte counter to 0")
 						continue
